@@ -739,6 +739,34 @@ func rulesC19(c *Ctx) {
 				}
 				c.Check(back, p.fn+":normalised-copy-is-returned", f, w.Stmt, "the value whose nil %s was replaced is the one handed back (a patched copy that is then dropped sends null after all)", p.field)
 			}
+			if !ok {
+				// delegated: the empty array is installed by a literal handed to a helper together with the nil test of the
+				// field (`h(res, res.Content == nil, func(r) { r.Content = []Content{} })`) — what the helper makes of the two is
+				// beyond this rule
+				delegated := false
+				for _, l := range f.AllLits() {
+					for _, w := range Writes(l.Body, false) {
+						s2, isS := ast.Unparen(w.LHS).(*ast.SelectorExpr)
+						cl, isCL := ast.Unparen(w.RHS).(*ast.CompositeLit)
+						if w.RHS == nil || !isS || s2.Sel.Name != p.field || !isCL || len(cl.Elts) != 0 {
+							continue
+						}
+						if call, isCall := l.Parent.ParentOf(l.Lit).(*ast.CallExpr); isCall {
+							for _, a := range call.Args {
+								if x, twn, isNil := NilTest(a); isNil && twn {
+									if sel, isSel := ast.Unparen(x).(*ast.SelectorExpr); isSel && sel.Sel.Name == p.field {
+										delegated = true
+									}
+								}
+							}
+						}
+					}
+				}
+				if delegated {
+					c.Undecided(p.fn+":nil-"+p.field+"-normalised", f, nil, "the replacement of a nil %s is delegated to a helper that receives the nil test and the assignment as arguments: not decided here", p.field)
+					continue
+				}
+			}
 			c.Check(ok, p.fn+":nil-"+p.field+"-normalised", f, nil, "%s replaces a nil %s by an empty array exactly when it is nil (and the result is not an input-required one): a wider or different condition lets \"%s\":null onto the wire", p.fn, p.field, strings.ToLower(p.field))
 		}
 		rr := c.Fn(pM, "Server", "readResource")
@@ -872,7 +900,26 @@ func rulesC19(c *Ctx) {
 			}
 			return true
 		})
-		c.Check(bounded == "" && okRB, "scanEvents:unbounded-lines", se, nil, "the SSE reader reads lines of any length (bufio.Reader.ReadBytes); a bufio.Scanner (64 KiB token limit) would turn every large message into a dead stream %s", bounded)
+		for _, g0 := range c.pkgClosure(se) {
+			ast.Inspect(g0.Body, func(n ast.Node) bool {
+				if call, ok := n.(*ast.CallExpr); ok {
+					if fn := g0.Callee(call); fn != nil {
+						switch fn.FullName() {
+						case "bufio.NewScanner":
+							bounded = g0.At(call)
+						case "(*bufio.Reader).ReadBytes", "(*bufio.Reader).ReadString":
+							okRB = true
+						}
+					}
+				}
+				return true
+			})
+		}
+		if bounded == "" && !okRB {
+			c.Undecided("scanEvents:unbounded-lines", se, nil, "lines are read by something other than ReadBytes/ReadString and not by a bufio.Scanner (ReadSlice/ReadLine with a spill buffer?): whether lines of any length survive is not decided here")
+		} else {
+			c.Check(bounded == "" && okRB, "scanEvents:unbounded-lines", se, nil, "the SSE reader reads lines of any length (bufio.Reader.ReadBytes); a bufio.Scanner (64 KiB token limit) would turn every large message into a dead stream %s", bounded)
+		}
 		iw := c.Fn(pM, "ioConn", "Write")
 		g := iw.Graph()
 		enc := c.FnObj(pJ, "", "EncodeMessage")
@@ -968,6 +1015,114 @@ func rulesC19(c *Ctx) {
 			}
 		}
 		c.Check(okEsc, "jsonMarshal:no-html-escaping", jm, nil, "the message encoder disables HTML escaping (payload bytes are preserved)")
+	})
+
+	c.Rule("R-C19-13", "a payload is never a view into a reader's internal buffer: what bufio.Reader.ReadSlice / ReadLine / Peek or Scanner.Bytes hand out is valid only until the next read, so it (or a sub-slice, trimmed or cut piece of it) is copied before it is stored in a field or collected in a slice — an event that keeps such a view is overwritten by the bytes of the events that follow it", func() {
+		borrowed := map[string]bool{"(*bufio.Reader).ReadSlice": true, "(*bufio.Reader).ReadLine": true, "(*bufio.Reader).Peek": true, "(*bufio.Scanner).Bytes": true}
+		aliasing := map[string]bool{"bytes.TrimSpace": true, "bytes.TrimRight": true, "bytes.TrimLeft": true, "bytes.Trim": true, "bytes.TrimPrefix": true, "bytes.TrimSuffix": true, "bytes.Cut": true, "bytes.CutPrefix": true, "bytes.CutSuffix": true, "bytes.Fields": true, "bytes.Split": true, "bytes.SplitN": true, "slices.Clip": true}
+		// functions of the package whose result is (a view of) a borrowed buffer, to a fixpoint
+		viewFns := map[*types.Func]bool{}
+		fns := c.funcsWithLits(pM)
+		var taintedIn func(f *Func) map[types.Object]bool
+		var isView func(f *Func, e ast.Expr, tv map[types.Object]bool) bool
+		isView = func(f *Func, e ast.Expr, tv map[types.Object]bool) bool {
+			switch x := ast.Unparen(e).(type) {
+			case *ast.Ident:
+				return tv[f.ObjOf(x)]
+			case *ast.SliceExpr:
+				return isView(f, x.X, tv)
+			case *ast.CallExpr:
+				fn := f.Callee(x)
+				if fn == nil {
+					return false
+				}
+				if borrowed[fn.FullName()] || viewFns[fn.Origin()] {
+					return true
+				}
+				if aliasing[fn.FullName()] && len(x.Args) > 0 {
+					return isView(f, x.Args[0], tv)
+				}
+			}
+			return false
+		}
+		taintedIn = func(f *Func) map[types.Object]bool {
+			tv := map[types.Object]bool{}
+			for changed := true; changed; {
+				changed = false
+				for _, w := range Writes(f.Root().Body, true) {
+					o := f.ObjOf(w.LHS)
+					if _, isID := ast.Unparen(w.LHS).(*ast.Ident); !isID || o == nil || tv[o] {
+						continue
+					}
+					src := w.RHS
+					if src == nil {
+						if as, ok := w.Stmt.(*ast.AssignStmt); ok && len(as.Rhs) == 1 {
+							// tuple: line, err := r.ReadSlice(..) / before, after, found := bytes.Cut(..): byte-slice results only
+							if sl, isSl := f.TypeOf(w.LHS).Underlying().(*types.Slice); isSl {
+								if b, isB := sl.Elem().Underlying().(*types.Basic); isB && b.Kind() == types.Uint8 {
+									src = as.Rhs[0]
+								}
+							}
+						}
+					}
+					if src != nil && isView(f, src, tv) {
+						tv[o] = true
+						changed = true
+					}
+				}
+			}
+			return tv
+		}
+		for round := 0; round < 3; round++ {
+			for _, f := range fns {
+				if f.Lit != nil || f.Obj == nil {
+					continue
+				}
+				tv := taintedIn(f)
+				for _, r := range f.Returns() {
+					for _, e := range r.Results {
+						if isView(f, e, tv) {
+							viewFns[f.Obj.Origin()] = true
+						}
+					}
+				}
+			}
+		}
+		nSrc, nSink := 0, 0
+		for _, f := range fns {
+			tv := taintedIn(f)
+			if len(tv) == 0 {
+				continue
+			}
+			nSrc++
+			c.touch(f)
+			for _, w := range Writes(f.Body, false) {
+				if w.RHS == nil {
+					continue
+				}
+				// stored in a field (or an element of one)
+				lhs := ast.Unparen(w.LHS)
+				if ix, isIx := lhs.(*ast.IndexExpr); isIx {
+					lhs = ast.Unparen(ix.X)
+				}
+				if sel, isSel := lhs.(*ast.SelectorExpr); isSel {
+					if fv, isF := f.ObjOf(sel.Sel).(*types.Var); isF && fv.IsField() {
+						nSink++
+						c.Check(!isView(f, w.RHS, tv), "borrowed-buffer:stored:"+f.Name()+":"+fv.Name(), f, w.Stmt, "%s receives a copy, not a view of the reader's buffer (%s)", exprStr(w.LHS), exprStr(w.RHS))
+					}
+				}
+				// collected as an element: x = append(x, view)
+				if ce, isC := ast.Unparen(w.RHS).(*ast.CallExpr); isC && f.BuiltinName(ce) == "append" && !ce.Ellipsis.IsValid() {
+					for _, a := range ce.Args[1:] {
+						if isView(f, a, tv) {
+							nSink++
+							c.Fail("borrowed-buffer:collected:"+f.Name(), f, w.Stmt, "a view of the reader's buffer (%s) is appended as an element: it changes under the collection at the next read", exprStr(a))
+						}
+					}
+				}
+			}
+		}
+		c.Ok("borrowed-buffer:population", nil, nil, "%d functions handle borrowed reader buffers, %d stores examined (the tree the rule was written for reads with ReadBytes, which allocates: 0 and 0)", nSrc, nSink)
 	})
 
 	c.Rule("R-C19-9", "what the peer said survives the transports' own error wrapping and read-ahead: when an error is wrapped together with jsonrpc2.ErrRejected the peer's error comes first (errors.As finds the first *WireError in the chain), and the newline-delimited reader keeps one json.Decoder for the life of the connection (its read-ahead buffer holds the next messages)", func() {
